@@ -856,6 +856,12 @@ static void iauth_read(evutil_socket_t fd, short events, void *iauth_in_v)
         if (argc < ARRAY_LENGTH(argv))
             argv[argc] = NULL;
 
+        /* A line without any command (just an id, or only blanks). */
+        if (argc == 0) {
+            free(line);
+            continue;
+        }
+
         /* If we should know the id, but don't, bail. */
         if (id == -1 || argv[0][0] == 'C')
             req = NULL;
@@ -873,12 +879,16 @@ static void iauth_read(evutil_socket_t fd, short events, void *iauth_in_v)
             parse_disconnect(req);
             break;
         case 'N':
+            if (req && argc < 2)
+                break; /* missing hostname */
             parse_hostname(req, argv[1]);
             break;
         case 'd':
             parse_no_hostname(req);
             break;
         case 'P':
+            if (req && argc < 2)
+                break; /* missing password */
             parse_password(req, argv[1]);
             break;
         case 'U':
@@ -888,6 +898,8 @@ static void iauth_read(evutil_socket_t fd, short events, void *iauth_in_v)
             parse_ident(req, argv[1]);
             break;
         case 'n':
+            if (req && argc < 2)
+                break; /* missing nickname */
             parse_nick(req, argv[1]);
             break;
         case 'H':
